@@ -23,7 +23,8 @@ def run_sweep(tier, modules=None, use_cache=True, log=True):
     absstr.table_lemmas()
     mods = modules or front.module_names()
     nmax = 40
-    limit = 240 if tier == 'quick' else 1500
+    limit = 150 if tier == 'quick' else 1500
+    t_start = time.time()
     h = front.tree_hash((tier, nmax, limit))
     d = os.path.join(CACHE, h)
     results = {}
@@ -53,7 +54,8 @@ def run_sweep(tier, modules=None, use_cache=True, log=True):
             if log:
                 print('  swept %-40s %6.1fs %s' % (item[0], secs, res.get('crash', '')[:80]), flush=True)
         # longest first
-        pool.pool_map(_task, [(m, tier, nmax, limit) for m in todo], None, limit * 2 + 60, prog)
+        pool.pool_map(_task, [(m, tier, nmax, limit) for m in todo], None, limit + 90 if tier == 'quick' else limit * 2 + 60, prog,
+                      deadline=t_start + 480 if tier == 'quick' else None)
         if log:
             print('  sweep of %d modules: %.1fs' % (len(todo), time.time() - t0), flush=True)
         # keep only the newest few cache generations
